@@ -9,6 +9,9 @@ From Interval Require Import Tactic.
 From EsVerif.C08 Require Import Gen Model Spec Proofs.
 Open Scope R_scope.
 
+Lemma sqrt_lower a b : 0 <= a -> a * a <= b -> a <= sqrt b.
+Proof. intros Ha H. rewrite <- (sqrt_square a Ha). apply sqrt_le_1_alt. exact H. Qed.
+
 Lemma asin_deriv c : -1 < c < 1 -> derivable_pt_lim asin c (1 / sqrt (1 - c²)).
 Proof. intro H. apply (derive_pt_eq_1 asin c _ (derivable_pt_asin c H)). apply derive_pt_asin. Qed.
 
@@ -74,7 +77,7 @@ Proof.
   replace (/ 2 * d - / 2 * d') with (/ 2 * (d - d')) in L by ring.
   rewrite Rabs_mult, (Rabs_right (/ 2)) in L by lra.
   assert (S : 100 / 2001 <= sqrt (1 - m²)).
-  { unfold Rsqr. rewrite M2. interval. }
+  { unfold Rsqr. rewrite M2. apply sqrt_lower; lra. }
   assert (0 <= Rabs (d - d')) by apply Rabs_pos.
   assert (Q : / 2 * Rabs (d - d') / sqrt (1 - m²) <= / 2 * Rabs (d - d') * (2001 / 100)).
   { unfold Rdiv. apply Rmult_le_compat_l; [lra|]. replace (2001 * / 100) with (/ (100 / 2001)) by field.
@@ -94,7 +97,7 @@ Lemma cross_branch_conditioning s s' : 0 <= s <= / 10 -> 0 <= s' <= / 10 ->
 Proof.
   intros Hs Hs'. replace (PI - asin s - (PI - asin s')) with (- (asin s - asin s')) by ring. rewrite Rabs_Ropp.
   pose proof (asin_lipschitz (/ 10) s s' ltac:(lra) ltac:(lra) ltac:(lra)) as L.
-  assert (S : 1000 / 1006 <= sqrt (1 - (/ 10)²)) by (unfold Rsqr; interval).
+  assert (S : 1000 / 1006 <= sqrt (1 - (/ 10)²)) by (unfold Rsqr; apply sqrt_lower; lra).
   assert (0 <= Rabs (s - s')) by apply Rabs_pos.
   assert (Q : Rabs (s - s') / sqrt (1 - (/ 10)²) <= Rabs (s - s') * (1006 / 1000)).
   { unfold Rdiv at 1. apply Rmult_le_compat_l; [lra|]. replace (1006 / 1000) with (/ (1000 / 1006)) by field.
